@@ -380,6 +380,8 @@ class Exec:
             return IntV(ord(bytes(text[1:-1], "utf-8").decode("unicode_escape")), 32, False)
         if text.startswith("ZeroSized") or text == "()":
             return OpaqueV(text)
+        if text.startswith('b"') or text in ("RangeFull", "core::ops::RangeFull") or text.startswith("{") or text.startswith("&"):
+            return OpaqueV(text[:30])   # byte-string format templates, unit structs, promoted references: never inspected
         m = re.match(r"^(?:f64::|core::f64::)(EPSILON|MAX|MIN|INFINITY|NAN)$", text)
         if m:
             import sys
@@ -393,6 +395,10 @@ class Exec:
             return IntV(v.hi() if m.group(2) == "MAX" else v.lo(), bits, signed)
         # named constant of the crate (e.g. formatter::YEAR): evaluate its MIR body
         name = strip_generics(text)
+        if name not in self.consts:
+            cands = [n for n in self.consts if n.split("::")[-1] == name.split("::")[-1] and "promoted" not in n]
+            if len(cands) == 1:
+                name = cands[0]
         if name in self.consts:
             if name not in self.const_cache:
                 outs = list(self.run(self.consts[name], [], Path()))
